@@ -858,6 +858,43 @@ def late_arrival(run: Run, stats: dict, mbid, mbox, triples, rng,
         srv.close()
 
 
+def commuting_numbers(run: Run, stats: dict, mbid, mbox, rng, backend: str = 'dict') -> None:
+    """Search.tla: several keys are a conjunction - their order, and a pair of parentheses
+    around them, cannot matter (law Rewrite).  Directed at keys that differ only in a number,
+    with numbers far apart (2^32, 2^61-1, 2^64 apart: whatever equality or ordering the
+    implementation keeps its keys by must tell them apart)."""
+    if not mbox:
+        return
+    conc = make_concrete(mbox, rng, backend)
+    srv = Server(backend)
+    try:
+        run_build(srv, conc, conc.build_script())
+        for word in (b'LARGER', b'SMALLER'):
+            for a in (0, 1, 2500):
+                for gap in (2 ** 32, 2 ** 61 - 1, 2 ** 64):
+                    b = a + gap
+                    progs = [b'%s %d %s %d' % (word, a, word, b), b'%s %d %s %d' % (word, b, word, a),
+                             b'(%s %d %s %d)' % (word, a, word, b)]
+                    answers = []
+                    for prog in progs:
+                        cond, ids, raw = ask(srv, prog, False)
+                        answers.append((cond, None if ids is None else tuple(sorted(ids))))
+                        stats['asked'] += 1
+                    run.count_exec((mbid, word, a, gap, 'commute'), nontrivial=True)
+                    if any(c != b'OK' for c, _ in answers):
+                        continue          # numbers this server refuses: nothing to compare
+                    if len({i for _, i in answers}) != 1:
+                        run.violation(
+                            f'equivalent programs answered differently: '
+                            + '; '.join(f'{p.decode()} -> {list(i or ())}'
+                                        for p, (_, i) in zip(progs, answers)),
+                            {'check': 'C13', 'backend': backend, 'mailbox': jsonable(mbox),
+                             'programs': [p.decode() for p in progs], 'commute': True}, None)
+                        return
+    finally:
+        srv.close()
+
+
 def corrupt_exp(exp):
     """Spec-side corruption for the self-test: drop the lowest id of every
     allowed set / add id 1 to the empty set."""
@@ -979,6 +1016,9 @@ def model_and_replay(run: Run, cfg: str, tlc_seed: int, stats: dict, rng, label:
             execute_mailbox(run, stats, (label, mbid), mailboxes[mbid], trs, rng, corrupt,
                             backend)
             late_arrival(run, stats, (label, mbid), mailboxes[mbid], trs, rng, backend)
+            if stats.get('commute_done', 0) < 4 and len(mailboxes[mbid]) >= 2:
+                stats['commute_done'] = stats.get('commute_done', 0) + 1
+                commuting_numbers(run, stats, (label, mbid), mailboxes[mbid], rng, backend)
         except PreconditionFailed as exc:
             if backend == 'dict':
                 run.machinery(f'{cfg}: mailbox {mbid}: the view could not be built: {exc}')
